@@ -29,6 +29,13 @@
 
 void janetc_emit(JanetCompiler *c, uint32_t instr);
 
+/* Fill in the offset of an already emitted jump instruction at index label so that it
+ * lands on index target. Conditional jumps hold a signed 16 bit offset (janetc_patchjump_s),
+ * JOP_JUMP a signed 24 bit offset (janetc_patchjump_l). An offset that does not fit
+ * is a compile error. */
+void janetc_patchjump_s(JanetCompiler *c, int32_t label, int32_t target);
+void janetc_patchjump_l(JanetCompiler *c, int32_t label, int32_t target);
+
 int32_t janetc_allocfar(JanetCompiler *c);
 int32_t janetc_allocnear(JanetCompiler *c, JanetcRegisterTemp);
 
